@@ -68,11 +68,21 @@ class D(operator.Operator):
             bmatT = bmatL
         else:
             shift = xp.asarray(self.k * sm.kvalue)
+            if shift.ndim > 1:
+                # a shift per batch entry: batch axes first, then the state axis
+                nb = shift.ndim - 1
+                shift = shift.reshape(shift.shape[:nb] + (1,) * (max(sm.ndim - nb, 0) + 1) + shift.shape[-1:])
             bmatL = compute_bmatrix(tau, sm.k)
             bmatT = compute_bmatrix(tau, sm.k - shift, sm.k)
 
         # get diffusion operator
-        DL, DT = diffusion_operator(bmatL, bmatT, self.D)
+        D = self.D
+        if not common.isscalar(D) and xp.ndim(D) > 2:
+            # a tensor per batch entry: batch axes first, then the state axis
+            D = xp.asarray(D)
+            nb = D.ndim - 2
+            D = D.reshape(D.shape[:nb] + (1,) * (max(sm.ndim - nb, 0) + 1) + D.shape[-2:])
+        DL, DT = diffusion_operator(bmatL, bmatT, D)
 
         # apply
         sm.states[..., 0] = DT * sm.states[..., 0]
